@@ -78,32 +78,25 @@ Theorem c04_constructed_once : forall b t0 progs s, Reach b t0 progs s -> Forall
 Proof. exact cv_constructed_once. Qed.
 Print Assumptions c04_constructed_once.
 
-(* cooling period (PARTIAL: proviso `stale s = false`): a table is freed more than 64 s after the growth that
-   superseded it, for every clock history, gc() calls included, 16-bit wrap included *)
-Theorem c04_cooling_partial : forall b t0 progs s, 0 <= t0 -> Reach b t0 progs s -> stale s = false ->
+(* cooling period: a table is freed more than 64 s after the growth that superseded it, for every schedule and every
+   clock history, gc() calls included, 16-bit stamp wrap included *)
+Theorem c04_cooling : forall b t0 progs s, 0 <= t0 -> Reach b t0 progs s ->
   forall k ti r f, nth_error (tables s) k = Some ti -> tsup ti = Some r -> tfreed ti = Some f -> f - r > 64.
-Proof. exact cv_cooling_partial. Qed.
-Print Assumptions c04_cooling_partial.
+Proof. exact cv_cooling. Qed.
+Print Assumptions c04_cooling.
 
-(* (PARTIAL, same proviso) a snapshot is found unusable only more than 64 s after it was taken *)
-Theorem c04_snapshot_usable_partial : forall b t0 progs s, 0 <= t0 -> Reach b t0 progs s -> stale s = false ->
+(* a snapshot is found unusable (its table freed) only more than 64 s after it was taken - hence more than one
+   cooling period after the growth that superseded it is not needed: 64 s after the snapshot was TAKEN suffice *)
+Theorem c04_snapshot_usable : forall b t0 progs s, 0 <= t0 -> Reach b t0 progs s ->
   forall k taken c, In (k, taken, c) (uaf s) -> c - taken > 64.
-Proof. exact cv_snapshot_partial. Qed.
-Print Assumptions c04_snapshot_usable_partial.
+Proof. exact cv_snapshot_usable. Qed.
+Print Assumptions c04_snapshot_usable.
 
-(* REFUTED without the proviso (finding F4, replayed on /repo) *)
-Theorem c04_cooling_refuted :
-  exists s, Reach 0 1000000 f4_progs s /\ all_done s = true /\
-    (exists k ti r f, nth_error (tables s) k = Some ti /\ tsup ti = Some r /\ tfreed ti = Some f /\ f - r = 0) /\
-    (exists k taken c, In (k, taken, c) (uaf s) /\ c - taken = 0) /\ stale s = true.
-Proof. exact cv_cooling_refuted. Qed.
-Print Assumptions c04_cooling_refuted.
-
-Theorem c04_cooling_refuted_short_stall :
-  exists s, Reach 0 1000000 f4b_progs s /\ all_done s = true /\
-    (exists k ti r f, nth_error (tables s) k = Some ti /\ tsup ti = Some r /\ tfreed ti = Some f /\ f - r = 63).
-Proof. exact cv_cooling_refuted_short_stall. Qed.
-Print Assumptions c04_cooling_refuted_short_stall.
+(* the stamp pushed by retire() is never older than the list it is pushed onto (ghost `stale`, the former finding F4):
+   the clock is re-read in every round of the push loop (regenerated target retry_new_head) *)
+Theorem c04_no_stale_stamp : forall b t0 progs s, 0 <= t0 -> Reach b t0 progs s -> stale s = false.
+Proof. exact cv_never_stale. Qed.
+Print Assumptions c04_no_stale_stamp.
 
 Theorem c04_times_are_past : forall b t0 progs s, 0 <= t0 -> Reach b t0 progs s ->
   forall k ti, nth_error (tables s) k = Some ti ->
